@@ -315,3 +315,122 @@ theorem export_same {s s' : State} (h : SameQueries s s') : exportGenesis s' = e
   rw [e1, e2, h.seq, h.params]
 
 end Irismod.Proofs.FarmGenesis
+
+namespace Irismod.Proofs.FarmGenesis
+open Irismod Irismod.Sdk Irismod.Farm Irismod.FarmGenesis Irismod.Proofs.GenesisList Irismod.Proofs.Farm Irismod.Spec
+
+theorem mem_iff_of_get {K V : Type} [DecidableEq K] {m1 m2 : AMap K V} (h1 : GenesisList.NodupKeys m1)
+    (h2 : GenesisList.NodupKeys m2) (h : ∀ k, AMap.get? m1 k = AMap.get? m2 k) : ∀ e, e ∈ m1 ↔ e ∈ m2 := by
+  intro e
+  constructor
+  · intro he; have := get?_of_mem h1 he; rw [h] at this; exact mem_of_get? this
+  · intro he; have := get?_of_mem h2 he; rw [← h] at this; exact mem_of_get? this
+
+theorem active_same {s s' : State} (h : SameQueries s s') (id : PoolId) (p : Pool) : C06.active s' id p = C06.active s id p := by
+  unfold C06.active
+  cases h1 : s.queue.contains (p.endH, id) with
+  | true =>
+    have : (p.endH, id) ∈ s'.queue := (h.queue _).mpr (by simpa using h1)
+    simpa using this
+  | false =>
+    cases h2 : s'.queue.contains (p.endH, id) with
+    | false => rfl
+    | true =>
+      have : (p.endH, id) ∈ s.queue := (h.queue _).mp (by simpa using h2)
+      have : s.queue.contains (p.endH, id) = true := by simpa using this
+      rw [h1] at this; cases this
+
+/-- the bundle and the genesis well-formedness survive the round trip -/
+theorem inv_same {s s' : State} (h : SameQueries s s') (hi : Inv s) (hg : GenWF s) : Inv s' ∧ GenWF s' := by
+  have hfperm : s'.farmers.Perm s.farmers :=
+    perm_of_mem h.fkeys hi.stakes.nodup (mem_iff_of_get h.fkeys hi.stakes.nodup (fun k => h.farmers k.1 k.2))
+  have hpperm : s'.pools.Perm s.pools :=
+    perm_of_mem h.pkeys hg.poolKeys (mem_iff_of_get h.pkeys hg.poolKeys h.pools)
+  obtain ⟨q1, q2, q3⟩ := hi.core.queue
+  refine ⟨⟨⟨?_, ?_, ?_, ⟨?_, ?_, h.qnodup⟩, ?_, ?_, ?_, ?_⟩, ⟨?_, h.fkeys⟩, ?_⟩, ?_⟩
+  · rw [h.env.height]; exact hi.core.hnn
+  · intro id p hp; rw [h.pools] at hp; exact hi.core.wf id p hp
+  · intro id p hp; rw [h.pools] at hp; rw [h.env.height]; exact hi.core.time id p hp
+  · intro hh id hm
+    rw [h.queue] at hm
+    obtain ⟨p, hp, he, hl⟩ := q1 hh id hm
+    exact ⟨p, by rw [h.pools]; exact hp, he, by rw [h.env.height]; exact hl⟩
+  · intro id p hp hlt
+    rw [h.pools] at hp; rw [h.env.height] at hlt
+    exact (h.queue _).mpr (q2 id p hp hlt)
+  · intro id p hp ha
+    rw [h.pools] at hp; rw [active_same h] at ha
+    exact hi.core.budget id p hp ha
+  · intro a id f p hf hp
+    rw [h.farmers] at hf; rw [h.pools] at hp
+    exact hi.core.debt a id f p hf hp
+  · intro a id f hf
+    rw [h.farmers] at hf
+    obtain ⟨p, hp⟩ := hi.core.fpool a id f hf
+    exact ⟨p, by rw [h.pools]; exact hp⟩
+  · intro id p hp r hr
+    rw [h.pools] at hp
+    exact (hi.core.ghost id p hp r hr).transfer (by rw [active_same h]; exact fun x => x) (by rw [h.env.height]; exact fun x => x)
+  · intro id
+    unfold C05.stakedSum C05.lockedOf
+    rw [sumIf_perm _ _ hfperm, h.pools]
+    exact hi.stakes.sum id
+  · intro d
+    unfold C05.expectedFarm AMap.sumBy
+    rw [h.env.bank, sumIf_perm _ _ hpperm]
+    exact hi.modacc d
+  · refine ⟨h.pkeys, ?_, ?_, ?_, ?_, by rw [h.params]; exact hg.params⟩
+    · intro id hid
+      rw [h.seq]
+      apply hg.ids
+      rw [mem_keys_iff] at hid ⊢
+      have := h.pools id; unfold getPool at this; rw [← this]; exact hid
+    · intro id p hp; rw [h.pools] at hp; exact hg.desc id p hp
+    · intro a id f hf; rw [h.farmers] at hf; exact hg.flock a id f hf
+    · intro a id f hf; rw [h.farmers] at hf; exact hg.fdebt a id f hf
+
+/-- between two blocks no pool has ended at the current height -/
+theorem blockStart_after_endBlocker {s s' : State} (hi : Inv s) (h : endBlocker s = .ok s') :
+    BlockStart { s' with height := s'.height + 1 } := by
+  rcases endBlocker_inv hi with ⟨w, e⟩ | ⟨s2, e, i2, h2, q2, o2, d2⟩
+  · rw [h] at e; cases e
+  · rw [h] at e; cases e
+    intro id p hp hend
+    have hp' : getPool s' id = some p := hp
+    have hend' : p.endH = s'.height + 1 := hend
+    by_cases hdue : (s.height, id) ∈ s.queue
+    · obtain ⟨pf, hpf, he, _⟩ := d2 id hdue
+      rw [hp'] at hpf; cases hpf
+      omega
+    · rw [o2 id hdue] at hp'
+      have hlt : s.height < p.endH := by omega
+      have hm := hi.core.queue.2.1 id p hp' hlt
+      have : (p.endH, id) ∈ s'.queue := (q2 _).mpr ⟨hm, by simp only; omega⟩
+      unfold C06.active
+      simpa using this
+
+theorem blockStart_endBlocks : ∀ (n : Nat) (s : State), Inv s → (endBlocks (n + 1) s).2 = false →
+    BlockStart (endBlocks (n + 1) s).1
+  | 0, s, hi, hf => by
+    unfold endBlocks at hf ⊢
+    cases he : endBlocker s with
+    | error e => rw [he] at hf; simp at hf
+    | ok s1 =>
+      simp only [endBlocks]
+      exact blockStart_after_endBlocker hi he
+  | n + 1, s, hi, hf => by
+    unfold endBlocks at hf ⊢
+    cases he : endBlocker s with
+    | error e => rw [he] at hf; simp at hf
+    | ok s1 =>
+      rw [he] at hf
+      simp only at hf ⊢
+      rcases endBlocker_inv hi with ⟨w, e⟩ | ⟨s2, e, i2, _⟩
+      · rw [he] at e; cases e
+      · rw [he] at e; cases e
+        exact blockStart_endBlocks n _ i2 hf
+
+theorem blockStart_genesis {s : State} (hg : C05.Genesis s) : BlockStart s := by
+  intro id p hp; unfold getPool at hp; rw [hg.1] at hp; cases hp
+
+end Irismod.Proofs.FarmGenesis
